@@ -2698,6 +2698,135 @@ theorem parseIntIsInt_bound (s : Bool) (m : Nat) (e : Int) (h : parseIntIsInt (.
   simp [parseIntIsInt] at h
   exact h.2
 
+/-! ## object arguments: conversion count and order (§15.7.4.2/5/6/7 step order) -/
+
+/-- otto's Value.float64() on an object is ToNumber(ToPrimitive(hint Number)): same result, same calls -/
+theorem convert_eq (sc : Script) (st : CState) : convert sc st = Spec.toNumberObj sc st := by
+  unfold convert Spec.toNumberObj
+  cases pick sc.vs st.vi with
+  | num x => rfl
+  | throw => rfl
+  | obj =>
+    simp only
+    cases pick sc.ss st.si <;> simp [List.append_assoc]
+
+/-- what the primitive-argument theorems say about one method, receiver value and converted argument -/
+def PrimAgree (L : Lib) (m : Meth) (x v : FV) : Prop :=
+  match m with
+  | .toFixed => toFixed L x (.num v) = Spec.toFixed x (.num v)
+  | .toExponential => toExponential L x (.num v) = Spec.toExponential x (.num v)
+  | .toPrecision => toPrecision L x (.num v) = Spec.toPrecision x (.num v)
+  | .toString => some (numberToString L x (.num v)) = Spec.toStringRadix x (.num v)
+
+/-- C06.argument_conversion: for every method, receiver (Number, Number object, anything else) and scripted
+    object argument (any sequence of valueOf / toString results: numbers, objects, throws), otto converts the
+    argument exactly as ES5 15.7.4.2/5/6/7 order it — same call log, same exception, same RangeError /
+    TypeError precedence — and the result is the spec's whenever the method agrees on the converted number. -/
+theorem callWithObject_eq (L : Lib) (m : Meth) (r : Recv) (sc : Script)
+    (h : ∀ x v, r.value? = some x → (Spec.toNumberObj sc st0).1 = .val v → PrimAgree L m x v) :
+    callWithObject L m r sc = Spec.callWithObject m r sc := by
+  cases m with
+  | toFixed =>
+    simp only [callWithObject, Spec.callWithObject, convert_eq]
+    cases hc : Spec.toNumberObj sc st0 with
+    | mk c st =>
+      cases c with
+      | thrown => rfl
+      | typeError => rfl
+      | val v =>
+        simp only [toInteger_eq, Spec.ltI, Spec.gtI, ofInt_zero]
+        by_cases hr : lt (ofInt 20) (Spec.toInteger v) = true ∨ lt (Spec.toInteger v) zero = true
+        · have hr' : lt (Spec.toInteger v) zero = true ∨ lt (ofInt 20) (Spec.toInteger v) = true := hr.symm
+          simp only [hr, hr', if_true]
+        · have hr' : ¬ (lt (Spec.toInteger v) zero = true ∨ lt (ofInt 20) (Spec.toInteger v) = true) := fun x => hr x.symm
+          simp only [hr, hr', if_false]
+          cases hv : r.value? with
+          | none => rfl
+          | some x =>
+            have := h x v hv (by rw [hc])
+            simp only [PrimAgree] at this
+            simp only [this]
+  | toExponential =>
+    simp only [callWithObject, Spec.callWithObject, convert_eq]
+    cases hv : r.value? with
+    | none => rfl
+    | some x =>
+      cases hc : Spec.toNumberObj sc st0 with
+      | mk c st =>
+        cases c with
+        | thrown => rfl
+        | typeError => rfl
+        | val v =>
+          have := h x v hv (by rw [hc])
+          simp only [PrimAgree] at this
+          simp only [this]
+  | toPrecision =>
+    simp only [callWithObject, Spec.callWithObject, convert_eq]
+    cases hv : r.value? with
+    | none => rfl
+    | some x =>
+      cases hc : Spec.toNumberObj sc st0 with
+      | mk c st =>
+        cases c with
+        | thrown => rfl
+        | typeError => rfl
+        | val v =>
+          have := h x v hv (by rw [hc])
+          simp only [PrimAgree] at this
+          simp only [this]
+  | toString =>
+    simp only [callWithObject, Spec.callWithObject, convert_eq]
+    cases hv : r.value? with
+    | none => rfl
+    | some x =>
+      cases hc : Spec.toNumberObj sc st0 with
+      | mk c st =>
+        cases c with
+        | thrown => rfl
+        | typeError => rfl
+        | val v =>
+          have := h x v hv (by rw [hc])
+          simp only [PrimAgree] at this
+          simp only [← this]
+
+/-- the argument is converted at most once: the call log is empty (receiver rejected first), "v" or "vs" -/
+theorem converted_once (L : Lib) (m : Meth) (r : Recv) (sc : Script) :
+    (callWithObject L m r sc).2 = [] ∨ (callWithObject L m r sc).2 = [118] ∨ (callWithObject L m r sc).2 = [118, 115] := by
+  have hconv : (convert sc st0).2.log = [118] ∨ (convert sc st0).2.log = [118, 115] := by
+    rw [convert_eq]
+    unfold Spec.toNumberObj
+    cases pick sc.vs st0.vi with
+    | num x => left; rfl
+    | throw => left; rfl
+    | obj => right; simp only; cases pick sc.ss st0.si <;> rfl
+  cases m <;> simp only [callWithObject]
+  · cases hc : convert sc st0 with
+    | mk c st =>
+      rw [hc] at hconv
+      cases c with
+      | thrown => exact Or.inr hconv
+      | typeError => exact Or.inr hconv
+      | val v =>
+        simp only
+        split
+        · exact Or.inr hconv
+        · cases r.value? <;> exact Or.inr hconv
+  all_goals (
+    cases r.value? with
+    | none => left; rfl
+    | some x =>
+      cases hc : convert sc st0 with
+      | mk c st =>
+        rw [hc] at hconv
+        cases c <;> exact Or.inr hconv)
+
+
+/-- instances: check-then-use script (valueOf answers 1, then 25) and a NaN receiver -/
+example : callWithObject Spec.exactLib .toFixed (.num (decode 0x3fe0000000000000)) ⟨[.num (ofInt 1), .num (ofInt 25)], [.num (ofInt 2)]⟩
+    = (.res (.str [48, 46, 53]), [118]) := by decide +kernel
+example : (callWithObject Spec.exactLib .toExponential (.num .nan) ⟨[.throw], [.num (ofInt 2)]⟩).2 = [118] := by decide +kernel
+example : (Spec.callWithObject .toPrecision (.num .nan) ⟨[.obj], [.num (ofInt 2)]⟩).2 = [118, 115] := by decide +kernel
+
 /-! ## non-vacuity of the layout theorem, witnesses of the remaining deviation regions, and the
     former regions (now model = spec) -/
 
